@@ -195,6 +195,8 @@ async def _run(case):
         for op in case["ops"]:
             await do(op)
         healed = None
+        assoc_before_heal = [t._association_state.name for t in sim.eps]
+        t1_failures_before_heal = [t._t1_failures for t in sim.eps]
         if case.get("heal", True):
             healed = await sim.heal()
         # observations
@@ -231,6 +233,8 @@ async def _run(case):
             "outbound_queue": [len(sim.eps[0]._outbound_queue), len(sim.eps[1]._outbound_queue)],
             "dc_queue": [len(sim.eps[0]._data_channel_queue), len(sim.eps[1]._data_channel_queue)],
             "assoc": [sim.eps[0]._association_state.name, sim.eps[1]._association_state.name],
+            "assoc_before_heal": assoc_before_heal,
+            "t1_failures_before_heal": t1_failures_before_heal,
             "state": [sim.eps[0].state, sim.eps[1].state],
             "snapshots": snapshots[:5],
             "datagrams": [len(sim.sent_log[0]), len(sim.sent_log[1])],
@@ -271,7 +275,10 @@ def gen_scenario(rng, reliable_only=False, pr=False, origins=None, nops=None, bi
     early = rng.random() < 0.25      # faults already during association set-up (duplicated INIT / COOKIE-ECHO ...)
     if early:
         for _ in range(rng.randrange(4, 12)):
-            ops.append(rng.choice([[2, 0, 0], [2, 1, 0], [4, 0, 0], [4, 1, 0], [2, 1, 1], [4, 1, 1]]))
+            # deliveries and duplications, and now and then the loss of a handshake datagram (INIT, INIT-ACK,
+            # COOKIE-ECHO or COOKIE-ACK): the T1 timer must recover from it
+            ops.append(rng.choice([[2, 0, 0], [2, 1, 0], [4, 0, 0], [4, 1, 0], [2, 1, 1], [4, 1, 1], [2, 0, 0], [2, 1, 0],
+                                   [3, 0, 0], [3, 1, 0]]))
     nchan = rng.randrange(1, 4)
     kinds = [0, 1] if reliable_only else ([0, 1, 2, 3, 4, 5, 6] if pr else [0, 1, 0, 1, 2, 4])
     chans = {0: 0, 1: 0}
